@@ -300,7 +300,17 @@ ADDENDA = {
     'C02': ' -Werror promotion is tested inside the emitter on every path to the warning count.'
            ' The -E log is closed between source files only under a test of ErrorPath; -maxerrors is compared with the error count only.',
 }
+ADDENDA8 = {
+    'C02': ' Every increment of JmpErrors (subtracted from the error count under -Y) is followed on every path by the counting emitter.',
+    'C09': ' Where a (word count, position in word) pair is normalised by division, quotient and remainder are taken of the same dividend.',
+    'C10': ' Where a (word count, position in word) pair is normalised by division, quotient and remainder are taken of the same dividend.',
+    'C13': ' The key of the named PUSHV/POPV stack list is folded like symbol names (in the function or by every caller); '
+           'a local pointer that is initialised with NULL and later tested receives a non-NULL value somewhere (predecessor pointers of list searches).',
+    'C20': ' Every capacity GetErrorPos() requests for the position text includes a byte for the terminator.',
+}
 for _k, _v in ADDENDA.items():
+    CLAIMS[_k]['text'] = CLAIMS[_k]['text'] + _v
+for _k, _v in ADDENDA8.items():
     CLAIMS[_k]['text'] = CLAIMS[_k]['text'] + _v
 
 NA_REASONS = {}
